@@ -243,6 +243,7 @@ struct World {
     /// the monitor's OWN record of who approved what, in the order the approvals were given
     /// (from the invocation traces; independent of the order the implementation stores)
     chron: HashMap<(u64, i64), Vec<u64>>,
+    order_reported: HashSet<(u64, i64)>,
     purges_multi: u64,
     preapproved_exec: u64,
     preapproved_refused: u64,
@@ -271,6 +272,7 @@ fn setup(n_accounts: u64) -> World {
         keys,
         key_ids,
         chron: HashMap::new(),
+        order_reported: HashSet::new(),
         purges_multi: 0,
         preapproved_exec: 0,
         preapproved_refused: 0,
@@ -773,12 +775,13 @@ fn monitor(w: &mut World, epoch: i64, s0: &Snap, post: &Snap, inst: &[Snap], tr:
     for ((wid, tid), ch) in w.chron.iter_mut() {
         let t = &post.wallets[wid].pending[tid];
         ch.retain(|a| t.approved.contains(a));
-        if *ch != t.approved {
+        // (the monitor keeps ITS order: a later cancel is judged against the order of approval, not
+        // against whatever order the implementation stores)
+        if *ch != t.approved && w.order_reported.insert((*wid, *tid)) {
             bad.push(Fail {
                 class: "approval-order",
                 what: format!("wallet {} txn {}: approvals stored as {:?} but given in the order {:?} (the first one may cancel)", wid, tid, t.approved, ch),
             });
-            *ch = t.approved.clone();
         }
     }
     bad
